@@ -3,7 +3,7 @@ CONSTANTS
   NPaths = 3
   Contents = {"ClsOp", "ClsOp2", "UseOp", "ClsDoc", "UseFoo"}
   Ops = {"update", "reindex"}
-  MaxSteps = 5
+  MaxSteps = 4
   EditDist = 1
   Batch = FALSE
   EmitSel = "same"
